@@ -252,3 +252,63 @@ Example mod_examples :
   /\ l2s (apply_mods (s2l ".txt") [s2l "%.txt"]) = ".txt"%string
   /\ l2s (apply_mods (s2l "plain") [s2l "dirname"]) = "plain"%string.
 Proof. vm_compute. repeat split; reflexivity. Qed.
+
+(* ---- a missing value never yields a command ---- *)
+Definition fstep (infos : list (str * pinfo)) (e : env) (acc : res) (m : str * str * str) : res :=
+  match acc with
+  | Fail => Fail
+  | Ok c => let '(whole, kind, rest) := m in
+            match replacement infos e kind rest with
+            | Ok r => Ok (replace_all whole r c)
+            | Fail => Fail end
+  end.
+
+Lemma format_command_fold cmd e : format_command cmd e = fold_left (fstep (port_infos cmd) e) (find_all cmd 0) (Ok cmd).
+Proof. reflexivity. Qed.
+
+Lemma fold_fail infos e ms : fold_left (fstep infos e) ms Fail = Fail.
+Proof. induction ms as [|m ms IH]; simpl; auto. Qed.
+
+(* if the replacement of any placeholder the scanner finds fails, no command is produced -- whatever the other
+   placeholders are and wherever it stands *)
+Theorem missing_value_fails cmd e whole kind rest :
+  In (whole, kind, rest) (find_all cmd 0) -> replacement (port_infos cmd) e kind rest = Fail -> format_command cmd e = Fail.
+Proof.
+  intros Hin Hf. rewrite format_command_fold.
+  apply in_split in Hin. destruct Hin as [l1 [l2 E]]. rewrite E, fold_left_app. simpl.
+  destruct (fold_left (fstep (port_infos cmd) e) l1 (Ok cmd)) as [c|]; simpl.
+  - rewrite Hf. apply fold_fail.
+  - apply fold_fail.
+Qed.
+
+(* the failing cases of a parameter / tag / in-path placeholder: value absent, or present but empty *)
+Lemma replacement_param_missing infos e name mods pi :
+  lookup name infos = Some pi -> ptype pi = s2l "p" ->
+  (lookup name (e_par e) = None \/ lookup name (e_par e) = Some []) ->
+  hd [] (split_on pipe (name ++ mods)) = name -> replacement infos e (s2l "p") (name ++ mods) = Fail.
+Proof.
+  intros Hl Ht Hv Hn. unfold replacement. rewrite Hn, Hl, Ht. simpl.
+  destruct Hv as [-> | ->]; reflexivity.
+Qed.
+
+Lemma replacement_tag_missing infos e name mods pi :
+  lookup name infos = Some pi -> ptype pi = s2l "t" ->
+  (lookup name (e_tag e) = None \/ lookup name (e_tag e) = Some []) ->
+  hd [] (split_on pipe (name ++ mods)) = name -> replacement infos e (s2l "t") (name ++ mods) = Fail.
+Proof.
+  intros Hl Ht Hv Hn. unfold replacement. rewrite Hn, Hl, Ht. simpl.
+  destruct Hv as [-> | ->]; reflexivity.
+Qed.
+
+Lemma replacement_in_missing infos e name mods pi :
+  lookup name infos = Some pi -> ptype pi = s2l "i" -> pjoin pi = None ->
+  (lookup name (e_in e) = None \/ lookup name (e_in e) = Some []) ->
+  hd [] (split_on pipe (name ++ mods)) = name -> replacement infos e (s2l "i") (name ++ mods) = Fail.
+Proof.
+  intros Hl Ht Hj Hv Hn. unfold replacement. rewrite Hn, Hl, Ht, Hj. simpl.
+  destruct Hv as [-> | ->]; reflexivity.
+Qed.
+
+Lemma replacement_unknown infos e kind rest :
+  lookup (hd [] (split_on pipe rest)) infos = None -> replacement infos e kind rest = Fail.
+Proof. intros H. unfold replacement. now rewrite H. Qed.
